@@ -6,6 +6,7 @@ import (
 	"go/types"
 	"os"
 	"reflect"
+	"strings"
 	"unsafe"
 
 	"golang.org/x/tools/go/ssa"
@@ -1038,8 +1039,50 @@ func InlineNew(fns []*ssa.Function) (st InlineStats, gone map[*ssa.Function]bool
 	}
 	remaining := map[*ssa.Function]int{} // uses that were not expanded
 	expanded := map[*ssa.Function]int{}
+	// The pointer-receiver (or promotion) wrapper the compiler makes for a new method is glue, not a caller: the
+	// method is not expanded into it, and it keeps the method alive only if the method could be reached through
+	// an interface of the module (some interface declares a method of that name).
+	ifaceMethods := map[string]bool{}
+	seenPkg := map[*ssa.Package]bool{}
+	for _, f := range fns {
+		if f.Pkg == nil || seenPkg[f.Pkg] {
+			continue
+		}
+		seenPkg[f.Pkg] = true
+		sc := f.Pkg.Pkg.Scope()
+		for _, n := range sc.Names() {
+			tn, ok := sc.Lookup(n).(*types.TypeName)
+			if !ok {
+				continue
+			}
+			if it, ok := tn.Type().Underlying().(*types.Interface); ok {
+				for i := 0; i < it.NumMethods(); i++ {
+					ifaceMethods[it.Method(i).Name()] = true
+				}
+			}
+		}
+	}
+	glueOf := map[*ssa.Function][]*ssa.Function{}
+	isGlue := func(f *ssa.Function) *ssa.Function {
+		if !strings.HasPrefix(f.Synthetic, "wrapper for") || f.Object() == nil {
+			return nil
+		}
+		tf, ok := f.Object().(*types.Func)
+		if !ok || f.Prog == nil {
+			return nil
+		}
+		m := f.Prog.FuncValue(tf)
+		if m == nil || m == f || !IsNew(m) || ifaceMethods[tf.Name()] {
+			return nil
+		}
+		return m
+	}
 	for _, f := range all {
 		if len(f.Blocks) == 0 {
+			continue
+		}
+		if m := isGlue(f); m != nil {
+			glueOf[m] = append(glueOf[m], f)
 			continue
 		}
 		changed := false
@@ -1100,6 +1143,9 @@ func InlineNew(fns []*ssa.Function) (st InlineStats, gone map[*ssa.Function]bool
 	}
 	// which new functions still have a use?
 	for _, f := range all {
+		if isGlue(f) != nil {
+			continue
+		}
 		for _, b := range f.Blocks {
 			for _, in := range b.Instrs {
 				var rands []*ssa.Value
@@ -1117,6 +1163,9 @@ func InlineNew(fns []*ssa.Function) (st InlineStats, gone map[*ssa.Function]bool
 	for h, n := range expanded {
 		if n > 0 && remaining[h] == 0 && h.Object() != nil {
 			gone[h] = true
+			for _, w := range glueOf[h] {
+				gone[w] = true
+			}
 			st.Callees = append(st.Callees, FuncKey(h))
 		}
 	}
